@@ -681,6 +681,11 @@ func init() {
 						j /= 4
 						return fmt.Sprintf("%s In(list of %d values of one type with %s at position class %d, %s)", mgrName(i%2 == 1), k, pool[int(j)/len(pool)].label, w, pool[int(j)%len(pool)].label)
 					}},
+				{Name: "exported-empty-reassigned", N: n * int64(len(c06Binary)) * 2, Run: func(c *fw.Ctx, i int64) { c06EmptyReassigned(c, pool, i) },
+					Repr: func(i int64) string {
+						j := i / 2
+						return fmt.Sprintf("%s %s with a Null operand and %s while variants.Empty points at another variant", mgrName(i%2 == 1), c06Binary[int(j)%len(c06Binary)], pool[int(j/int64(len(c06Binary)))%len(pool)].label)
+					}},
 				{Name: "hash-twin-operands", N: 5 * 2 * 4 * 4 * 2, Run: c06Twins,
 					Repr: func(i int64) string { return fmt.Sprintf("two calls on one manager with numeric string operands that share a hash value (#%d)", i) }},
 				{Name: "laws", N: n * n * 2, Run: func(c *fw.Ctx, i int64) { c06Laws(c, pool, i) },
@@ -795,6 +800,45 @@ func c06Twins(c *fw.Ctx, i int64) {
 	}
 	if outcomeStr(r2, e2, nil) != outcomeStr(f2, fe2, nil) {
 		c.Violation("operator-depends-on-previous-call:"+op, "%s manager: %s(%s, String %q) right after %s(%s, String %q) gives %s, a fresh manager gives %s (the two texts have the same %s hash)", mgrName(safe), op, variantStr(mkFirst()), b, op, variantStr(mkFirst()), a, outcomeStr(r2, e2, nil), outcomeStr(f2, fe2, nil), p.hash)
+	}
+	c.Nontrivial()
+}
+
+// ---- the exported variable variants.Empty points at another variant (a caller may assign it): operators
+// still propagate a real Null, build their results from scratch and leave that variable alone
+
+func c06EmptyReassigned(c *fw.Ctx, pool []poolVal, i int64) {
+	safe := i%2 == 1
+	i /= 2
+	op := c06Binary[int(i)%len(c06Binary)]
+	i /= int64(len(c06Binary))
+	pa := pool[int(i)%len(pool)]
+	saved := variants.Empty
+	mine := variants.VariantFromInteger(6)
+	variants.Empty = mine
+	defer func() { variants.Empty = saved }()
+	for _, nullFirst := range []bool{true, false} {
+		null := variants.VariantFromInteger(0)
+		null.Clear() // a Null operand that was not made from the exported variable
+		a, b := null, pa.mk()
+		if !nullFirst {
+			a, b = b, a
+		}
+		ref := refBinary(op, safe, a, b)
+		if op == "GetElement" || op == "In" {
+			ref = refBinary(op, safe, a, b)
+		}
+		var r *variants.Variant
+		var err error
+		pv := fw.Try(func() { r, err = callBinary(opsManager(safe), op, a, b) })
+		c.Eval(1)
+		if msg := c06Compare(ref, r, err, pv); msg != "" {
+			c.Violation("operator-depends-on-exported-empty:"+op, "%s %s with a Null operand (Null first: %v, other operand %s) while variants.Empty points at Integer 6: %s", mgrName(safe), op, nullFirst, pa.label, msg)
+			return
+		}
+	}
+	if variants.Empty != mine || variantStr(mine) != variantStr(variants.VariantFromInteger(6)) {
+		c.Violation("operator-writes-exported-empty:"+op, "%s %s changed the variant the caller put into variants.Empty to %s", mgrName(safe), op, variantStr(variants.Empty))
 	}
 	c.Nontrivial()
 }
